@@ -45,7 +45,8 @@ func c06Enumerate(tier string, seed int64, emit func(string, any)) {
 	}
 	for _, p := range c06Programs {
 		for _, s := range seeds {
-			emit("interference/<=2 actions", c06Case{Kind: "interfere", Src: p, Seed: s, Dev: 2})
+			emit("interference/1 action anywhere", c06Case{Kind: "interfere", Src: p, Seed: s, Dev: 1})
+			emit("interference/<=2 actions in the first 28 boundaries", c06Case{Kind: "interfere", Src: p, Seed: s, Dev: 2})
 			if thorough && len(p) <= 8 {
 				emit("interference/<=3 actions", c06Case{Kind: "interfere", Src: p, Seed: s, Dev: 3})
 			}
@@ -93,9 +94,11 @@ var c06Other1, c06Other2 *ds.Context
 func c06Act(k int) {
 	switch k {
 	case 1:
-		_ = c06Other1.Run("3d6 + [1,2,3].rand()") // unseeded VM: draws from the package-level generator
+		c06Other1.VerifResetForRerun()
+		_ = c06Other1.RunAfterParsed() // unseeded VM rolling 3d6 + [1,2,3].rand(): draws from the package-level generator
 	case 2:
-		_ = c06Other2.Run("2d20 + 2c8") // another seeded VM
+		c06Other2.VerifResetForRerun()
+		_ = c06Other2.RunAfterParsed() // another seeded VM rolling 2d20 + 2c8
 	case 3:
 		ds.VerifSeedGlobal(11)
 		xrand.Seed(11)
@@ -224,6 +227,8 @@ func c06Run(raw json.RawMessage) harn.Result {
 	oc := drv.AllOn()
 	oc.Seed = 99
 	c06Other2 = drv.NewVM(oc)
+	_ = c06Other1.Parse("3d6 + [1,2,3].rand()")
+	_ = c06Other2.Parse("2d20 + 2c8")
 	switch c.Kind {
 	case "interfere":
 		ds.VerifSeedGlobal(1)
@@ -247,7 +252,14 @@ func c06Run(raw json.RawMessage) harn.Result {
 			}
 		}
 		// every placement of <= Dev interfering actions at instruction boundaries
-		st := choice.Explore(0, c.Dev, func(cc *choice.Ctx) {
+		maxPts := 0
+		if c.Dev >= 2 {
+			maxPts = 28 // two or more actions: placements among the first 28 instruction boundaries (beyond: no interference)
+		}
+		if c.Dev >= 3 {
+			maxPts = 20
+		}
+		st := choice.Explore(maxPts, c.Dev, func(cc *choice.Ctx) {
 			ds.VerifSeedGlobal(1)
 			xrand.Seed(1)
 			o := c06Eval(c, c06NewVM(c, seedBytes), c.Src, cc)
@@ -256,6 +268,7 @@ func c06Run(raw json.RawMessage) harn.Result {
 			}
 		})
 		res.Stats["executions"] += st.Runs
+		res.Stats["executions_with_placements_cut_at_bound"] += st.Forced
 		res.Sample = fmt.Sprintf("%q seed %d: %d placements of <=%d interfering actions, %d draws", c.Src, c.Seed, st.Runs, c.Dev, base.draws)
 	case "resume":
 		for split := 1; split < len(c.Stmts); split++ {
